@@ -236,6 +236,12 @@ class EngineB:
                     except Unsupported as e:
                         unknowns[cl.name].append(f"clause not evaluable: {e}")
                         continue
+                    except PyRaise as e:
+                        # an element function re-executed on the generic element raises: some in-domain element makes the
+                        # code under contract raise
+                        failures[cl.name].append((f"{e.value.cls.__name__} is raised for some in-domain element of a "
+                                                  f"sequence / mapping (generic-element re-execution)", None, path))
+                        continue
                     except (RecursionError, CyclicValue):
                         # a result that contains itself (cyclic structure) cannot satisfy a clause over finite values
                         failures[cl.name].append(("the result is a cyclic structure (clause evaluation diverged)", None, path))
